@@ -598,6 +598,10 @@ func (m *Machine) RunPath(fn *ssa.Function, initPkgs []*ssa.Package, trace []Dec
 		res.Outcome = "panic:" + o
 		res.Complete = true
 		m.safeViolation("panic", "no-panic", o)
+	case allocPanic:
+		res.Outcome = "panic:alloc " + o.msg
+		res.Complete = true
+		m.safeViolation("alloc", "bounded-allocation", o.msg)
 	case fatalError:
 		res.Outcome = "fatal:" + o.msg
 		res.Complete = true
